@@ -1,0 +1,68 @@
+//go:build verif
+
+// Machine-checked contracts for govc (see /verif/DESIGN.md). Comments only;
+// compiled only with the build tag "verif".
+
+package filesystem
+
+// C18: the reaction of the provider to one file event, stated relative to what the provider's state
+// map (p.states: file name -> hash of the loaded version) says about the file.
+//
+// Ghost logs: lrs = loadRuleSet calls; smload/smstore/smdel = sync.Map calls; onc/onu/ond = calls of
+// the rule set processor.
+
+//@ func (*Provider).loadRuleSet
+//@   props C18
+//@   logged lrs
+//@   ensures ret1 != nil ==> ret0 == nil
+//@   ensures ret1 == nil ==> ret0 != nil && ret0.MetaData.Source == "file_system:" + fileName
+//@   ensures onc.n == old(onc.n) && onu.n == old(onu.n) && ond.n == old(ond.n) && smstore.n == old(smstore.n) && smdel.n == old(smdel.n) && smload.n == old(smload.n)
+
+// a file that is gone: unloaded exactly when it was loaded before, and forgotten only when the
+// processor accepted the unload
+//@ func (*Provider).ruleSetDeleted
+//@   props C18
+//@   logged rsd
+//@   ensures smload.n == old(smload.n) + 1 && smload.arg0[old(smload.n)] == &p.states && smload.arg1[old(smload.n)] == iface(fileName)
+//@   ensures !smload.ret1[old(smload.n)] ==> ret0 == nil && ond.n == old(ond.n) && smdel.n == old(smdel.n)
+//@   ensures smload.ret1[old(smload.n)] ==> ond.n == old(ond.n) + 1 && ret0 == ond.ret0[old(ond.n)]
+//@   assert at call OnDeleted#1: callarg1 != nil && callarg1.MetaData.Source == "file_system:" + fileName && len(callarg1.Rules) == 0
+//@   ensures smload.ret1[old(smload.n)] && ret0 == nil ==> smdel.n == old(smdel.n) + 1 && smdel.arg0[old(smdel.n)] == &p.states && smdel.arg1[old(smdel.n)] == iface(fileName)
+//@   ensures ret0 != nil ==> smdel.n == old(smdel.n)
+//@   ensures onc.n == old(onc.n) && onu.n == old(onu.n) && smstore.n == old(smstore.n) && lrs.n == old(lrs.n)
+
+// a file that was created or written: one load attempt; then
+//  - empty or vanished          -> same as deleted
+//  - does not parse / unreadable -> error, nothing told to the processor, state untouched (the
+//                                   previously loaded version stays active)
+//  - unknown so far             -> OnCreated once
+//  - known with another hash    -> OnUpdated once
+//  - known with the same hash   -> nothing
+// and the new hash is remembered exactly when the processor accepted the change.
+//@ func (*Provider).ruleSetCreatedOrUpdated
+//@   props C18
+//@   logged cou
+//@   ensures lrs.n == old(lrs.n) + 1 && lrs.arg1[old(lrs.n)] == fileName
+//@   ensures lrs.ret1[old(lrs.n)] != nil && !Is(lrs.ret1[old(lrs.n)], config2.ErrEmptyRuleSet) && !Is(lrs.ret1[old(lrs.n)], os.ErrNotExist) ==> ret0 != nil && onc.n == old(onc.n) && onu.n == old(onu.n) && ond.n == old(ond.n) && smstore.n == old(smstore.n) && smdel.n == old(smdel.n)
+//@   ensures lrs.ret1[old(lrs.n)] != nil && (Is(lrs.ret1[old(lrs.n)], config2.ErrEmptyRuleSet) || Is(lrs.ret1[old(lrs.n)], os.ErrNotExist)) ==> rsd.n == old(rsd.n) + 1 && rsd.arg1[old(rsd.n)] == fileName && ret0 == rsd.ret0[old(rsd.n)] && onc.n == old(onc.n) && onu.n == old(onu.n) && smstore.n == old(smstore.n)
+//@   ensures lrs.ret1[old(lrs.n)] == nil || (!Is(lrs.ret1[old(lrs.n)], config2.ErrEmptyRuleSet) && !Is(lrs.ret1[old(lrs.n)], os.ErrNotExist)) ==> rsd.n == old(rsd.n)
+//@   ensures lrs.ret1[old(lrs.n)] == nil ==> smload.n == old(smload.n) + 1 && smload.arg0[old(smload.n)] == &p.states && smload.arg1[old(smload.n)] == iface(fileName) && ond.n == old(ond.n) && smdel.n == old(smdel.n)
+//@   ensures lrs.ret1[old(lrs.n)] == nil && !fsKnown(smload.ret0[old(smload.n)], smload.ret1[old(smload.n)]) ==> onc.n == old(onc.n) + 1 && onc.arg1[old(onc.n)] == lrs.ret0[old(lrs.n)] && ret0 == onc.ret0[old(onc.n)] && onu.n == old(onu.n)
+//@   ensures lrs.ret1[old(lrs.n)] == nil && fsKnown(smload.ret0[old(smload.n)], smload.ret1[old(smload.n)]) && !beq.ret0[old(beq.n)] ==> onu.n == old(onu.n) + 1 && onu.arg1[old(onu.n)] == lrs.ret0[old(lrs.n)] && ret0 == onu.ret0[old(onu.n)] && onc.n == old(onc.n)
+//@   ensures lrs.ret1[old(lrs.n)] == nil && fsKnown(smload.ret0[old(smload.n)], smload.ret1[old(smload.n)]) && beq.ret0[old(beq.n)] ==> onu.n == old(onu.n) && onc.n == old(onc.n) && ret0 == nil && smstore.n == old(smstore.n)
+//@   ensures lrs.ret1[old(lrs.n)] == nil && ret0 != nil ==> smstore.n == old(smstore.n)
+//@   ensures lrs.ret1[old(lrs.n)] == nil && fsKnown(smload.ret0[old(smload.n)], smload.ret1[old(smload.n)]) ==> beq.n == old(beq.n) + 1
+//@   assert at call Equal#1: callarg0 == unbox(smload.ret0[smload.n - 1], "[]byte") && callarg1 == lrs.ret0[lrs.n - 1].Hash
+//@   assert at call Store#1: callarg2 == iface(lrs.ret0[lrs.n - 1].Hash)
+//@   ensures lrs.ret1[old(lrs.n)] == nil && ret0 == nil && (onc.n > old(onc.n) || onu.n > old(onu.n)) ==> smstore.n == old(smstore.n) + 1 && smstore.arg0[old(smstore.n)] == &p.states && smstore.arg1[old(smstore.n)] == iface(fileName)
+
+// known(v, ok): the state map has a non-empty hash for the file
+//@ spec fsKnown(v any, ok bool) bool = ok && len(unbox(v, "[]byte")) != 0
+
+// dispatch of a file system event: create, write and chmod are (re)loads, remove is an unload
+//@ spec evHas(evt fsnotify.Event, op fsnotify.Op) bool
+//@ func (*Provider).ruleSetsChanged
+//@   props C18
+//@   ensures evHas(evt, fsnotify.Create) || evHas(evt, fsnotify.Write) || evHas(evt, fsnotify.Chmod) ==> cou.n == old(cou.n) + 1 && cou.arg1[old(cou.n)] == evt.Name && ret0 == cou.ret0[old(cou.n)]
+//@   ensures !(evHas(evt, fsnotify.Create) || evHas(evt, fsnotify.Write) || evHas(evt, fsnotify.Chmod)) && evHas(evt, fsnotify.Remove) ==> rsd.n == old(rsd.n) + 1 && rsd.arg1[old(rsd.n)] == evt.Name && ret0 == rsd.ret0[old(rsd.n)] && cou.n == old(cou.n)
+//@   ensures !(evHas(evt, fsnotify.Create) || evHas(evt, fsnotify.Write) || evHas(evt, fsnotify.Chmod)) && !evHas(evt, fsnotify.Remove) ==> rsd.n == old(rsd.n) && cou.n == old(cou.n) && ret0 == nil
